@@ -2,7 +2,7 @@
 From Coq Require Import List ZArith Reals Lra Bool.
 Import ListNotations.
 Require Import PGM.Base.Num PGM.Model.Select PGM.Model.Factor PGM.Model.Region PGM.Proofs.SelectP PGM.Proofs.RegionP.
-Require Import PGM.Base.Alg PGM.Base.Sums PGM.Model.BP PGM.Proofs.BPrunP PGM.Proofs.BPlinkP.
+Require Import PGM.Base.Alg PGM.Base.Sums PGM.Model.BP PGM.Model.LBP PGM.Proofs.BPrunP PGM.Proofs.BPlinkP PGM.Proofs.LbpP.
 Open Scope R_scope.
 
 (* every pseudo-marginal both oracles return is belief_of total (accumulated log-belief): whatever the messages (any sweep count,
@@ -80,16 +80,28 @@ Proof. exact (nsweeps_exact S shape D ncl scope nbrs psi nbrs_nodup nbrs_sym nbr
 Theorem C16_division_form (g : nat -> S) j l : NoDup l -> In j l -> g j <> zero S ->
   @sdiv S (prodl S (map g l)) (g j) = prodl S (map g (others j l)).
 Proof. exact (prodl_split_div S g j l). Qed.
+
+(* THE EXECUTABLE MODEL OF loopy_belief_propagation (Model/LBP.v: materialised messages, per sweep a factor -> variable step rescaled by
+   1/mass and a variable -> factor step; this very term is extracted and run on exact rationals against FactorGraph.belief_propagation,
+   on trees and on loopy graphs) is such a sweep list: on a tree, once fv and vf contain every directed edge and the number of sweeps
+   reaches the height of the tree, its marginals are the brute-force marginals. *)
+Theorem C16_loopy_model_exact_on_trees fv vf n total c x :
+  (forall i j, In j (nbrs i) -> In (i, j) fv \/ In (i, j) vf) -> (forall i j, In j (nbrs i) -> height (tr nbrs sch i j) <= n) ->
+  c < ncl -> valid shape x ->
+  @sum_vars S shape (scope c) (belief_of_msgs S nbrs psi (Mtrue S shape scope nbrs psi sch) c) base0 <> zero S ->
+  @lbp_marginal S shape D scope nbrs psi fv vf n total c x = @brute S shape D ncl psi total (scope c) x.
+Proof. exact (lbp_exact_on_trees S shape D ncl scope nbrs psi nbrs_nodup nbrs_sym nbrs_lt psi_dep psi_wf shape_pos D_nodup scope_nodup scope_sub sch sch_valid sch_complete roots_ok fv vf n total c x). Qed.
 End C16_flooding.
 Print Assumptions C16_flooding_reaches_the_true_messages.
 Print Assumptions C16_flooding_exact_once_run_for_enough_rounds.
 Print Assumptions C16_sweeps_reach_the_true_messages_up_to_scale.
 Print Assumptions C16_loopy_propagation_exact_on_trees_once_run_for_enough_sweeps.
 Print Assumptions C16_division_form.
+Print Assumptions C16_loopy_model_exact_on_trees.
 
-(* PARTIAL (observed per run against the brute-force marginals, not proved): (1) that loopy_belief_propagation in log-space floats IS such a sweep
-   list on the bipartite factor/variable tree (factor -> variable step rescaled by 1/sum, variable -> factor step unscaled, division form with
-   non-zero messages - which holds for finite potentials); the float model of the sweep is compared with the code on every run;
+(* PARTIAL (observed per run against the brute-force marginals, not proved): (1) that loopy_belief_propagation in log-space floats computes what the executable model Model/LBP.v computes in the semifield (division form with
+   non-zero messages - finite potentials - instead of the product over the others): the extracted model is run on exact rationals against the code on every
+   case (trees and loopy graphs, every sweep count), and the float model of the sweep as before;
    (2) generalized BP on clique sets with the running-intersection property (potentials on the maximal cliques).
    Known finding: generalized BP ignores the potentials of descendant regions in beliefs and message numerators, so it is inexact
    as soon as a nested (non-maximal) region carries a potential. *)
